@@ -80,6 +80,21 @@ func (gen *Generator) GenerateBegin(expressions []Sexp) error {
 	return gen.Generate(expressions[size-1])
 }
 
+// GenerateBody generates a sequence of forms whose value is needed: the body
+// of a begin, a let, a function. A form leaves exactly one value on the data
+// stack; when there is nothing to evaluate that value is nil.
+func (gen *Generator) GenerateBody(expressions []Sexp) error {
+	start := len(gen.instructions)
+	err := gen.GenerateBegin(expressions)
+	if err != nil {
+		return err
+	}
+	if len(gen.instructions) == start {
+		gen.AddInstruction(PushInstr{SexpNull})
+	}
+	return nil
+}
+
 func buildSexpFun(
 	env *Zlisp,
 	name string,
@@ -140,7 +155,7 @@ func buildSexpFun(
 	for i := len(argsyms) - 1; i >= 0; i-- {
 		gen.AddInstruction(PopStackPutEnvInstr{argsyms[i]})
 	}
-	err := gen.GenerateBegin(funcbody)
+	err := gen.GenerateBody(funcbody)
 	if err != nil {
 		return MissingFunction, err
 	}
@@ -542,7 +557,7 @@ func (gen *Generator) GenerateLet(name string, args []Sexp) error {
 		}
 	}
 	gen.Tail = oldtail
-	err := gen.GenerateBegin(args[1:])
+	err := gen.GenerateBody(args[1:])
 	if err != nil {
 		return err
 	}
@@ -650,7 +665,7 @@ func (gen *Generator) GenerateCallBySymbol(sym *SexpSymbol, args []Sexp, orig Se
 	case "defn":
 		return gen.GenerateDefn(args, orig)
 	case "begin":
-		return gen.GenerateBegin(args)
+		return gen.GenerateBody(args)
 	case "let":
 		return gen.GenerateLet("let", args)
 	case "letseq":
@@ -1556,8 +1571,10 @@ func (gen *Generator) GenerateNewScope(expressions []Sexp) error {
 	oldtail := gen.Tail
 	gen.Tail = false
 	if size == 0 {
+		// nothing to evaluate: the value of the form is nil
+		gen.AddInstruction(PushInstr{SexpNull})
+		gen.Tail = oldtail
 		return nil
-		//return NoExpressionsFound
 	}
 
 	gen.AddInstruction(AddScopeInstr{Name: "newScope"})
@@ -1670,6 +1687,8 @@ func getQuotedSymbol(expr *SexpPair) (*SexpSymbol, error) {
 func (gen *Generator) GenerateReturn(xs []Sexp) error {
 	n := len(xs)
 	if n == 0 {
+		// nothing to evaluate: the value of the form is nil
+		gen.AddInstruction(PushInstr{SexpNull})
 		return nil
 	}
 
